@@ -135,3 +135,56 @@ func vhCatch(f func()) (panicked bool) {
 	f()
 	return false
 }
+
+//vf:tier quick
+//vf:bigint theory
+//vf:bvints off
+//vf:unwind 64
+//vf:bound GAS mint and burn of any amount in [0,2^16) on an account with any balance in [0,2^16): total supply and balance move by exactly the amount (burn above the balance refused), one Transfer event whose amount equals the amount and stays equal to it afterwards, the caller's amount value is not modified
+func VF_C05_gas_mint_burn() {
+	g := newGAS(0)
+	acc := vhAccts[0]
+	ic := vhNewIC(acc, true)
+	bal := vfBig("balance", 17)
+	vfAssume(bal.Sign() >= 0)
+	vhSetGAS(g, ic, acc, bal)
+	ic.DAO.PutBigInt(g.ID, totalSupplyKey, bal)
+	amount := vfBig("amount", 17)
+	vfAssume(amount.Sign() >= 0)
+	orig := new(big.Int).Set(amount)
+	burn := vfBool("burn")
+	nBefore := len(ic.Notifications)
+	panicked := vhCatch(func() {
+		if burn {
+			g.Burn(ic, acc, amount)
+		} else {
+			g.MintDeferrable(ic, acc, amount, false, func() {})
+		}
+	})
+	if !panicked {
+		// (a refused burn faults the whole execution; the argument's state is then irrelevant)
+		vfAssert(amount.Cmp(orig) == 0, "caller's-amount-not-modified")
+	}
+	after := g.balanceOfInternal(ic.DAO, acc)
+	_, supply := g.getTotalSupply(ic.DAO)
+	if burn && orig.Cmp(bal) > 0 {
+		vfAssert(panicked, "burn-above-balance-refused")
+		return
+	}
+	vfAssert(!panicked, "accepted")
+	want := new(big.Int).Add(bal, orig)
+	if burn {
+		want = new(big.Int).Sub(bal, orig)
+	}
+	vfAssert(after.Cmp(want) == 0 && supply.Cmp(want) == 0, "balance-and-supply-moved-by-the-amount")
+	nEv := len(ic.Notifications) - nBefore
+	if orig.Sign() == 0 {
+		return
+	}
+	vfAssert(nEv == 1, "one-Transfer-event")
+	if nEv == 1 {
+		items := ic.Notifications[nBefore].Item.Value().([]stackitem.Item)
+		ev, err := items[2].TryInteger()
+		vfAssert(err == nil && ev.Cmp(orig) == 0, "event-amount==amount")
+	}
+}
